@@ -86,6 +86,16 @@ def run(ctx):
         judge_errors(ctx, "corpus", corpus)
         judge(ctx, "corpus", [(c[:jsonref.trailing_result(c)[1]], b"", c[jsonref.trailing_result(c)[1]:]) for c in corpus if jsonref.trailing_result(c)[0] == "ok"])
     judge(ctx, "S x sep x trail", cases)
+    # Len does not depend on what was read from the document before: after 1..3 lexemes, after reading everything, after Check
+    htexts = [a + b + c for a, b, c in cases[:: max(1, len(cases) // (1200 if quick else 20000))]]
+    hfresh = vc.impl_parallel(["json"], ["L " + jc.hx(t) for t in htexts])
+    hhist = vc.impl_parallel(["json"], ["G " + jc.hx(t) for t in htexts])
+    for t, fr, hi in zip(htexts, hfresh, hhist):
+        ctx.evaluations += 1
+        if any(p_ != fr for p_ in hi.split("/")) and len(ctx.violations) < 40:
+            ctx.report("Document.Len on %r depends on earlier calls on the same document: after [1 / 2 / 3 lexemes / full read / Check] it says %s, on a fresh document %s" % (t[:80], hi, fr),
+                       "jsonlenhist:" + t.hex(), {"text_hex": t.hex(), "text": t.decode("latin1"), "history_results": hi, "fresh": fr}, case=t)
+    ctx.extra["len_history_cases"] = len(htexts)
     bad = [jsongen.mutate(rng, rng.choice(ss)) for _ in range(1500 if quick else 60000)] + list(jsongen.exhaustive(jsongen.ALPHA16, 3 if quick else 4))
     judge_errors(ctx, "malformed", bad)
     # ---- schema and enum halves, through the API (no Coq model of these scanners yet) ----
